@@ -32,3 +32,16 @@ P["C09"] = {
     "rule": "Degrees 2..2^8 (thorough 2^11), NTT-friendly primes of the smallest admissible size up to 61 bits (from get_primes), tables built twice independently; all N unit vectors for small N (the map is linear), all-(q-1), lazy-range maxima (<4q forward, <2q inverse), random vectors; convolution via ntt/dyadic/intt against the explicit negacyclic double sum; composite moduli = 1 mod 2N and non-NTT-friendly moduli must be refused.",
     "assumptions": ["the random search for *some* primitive root (rand::thread_rng) is an input of the model (any primitive root gives the same minimal root when q is prime: theorem root_deterministic)"],
 }
+
+P["C10"] = {
+    "lean_modules": ["Heathcliff.Props.C10"],
+    "level": "proof",
+    "runs": lambda tier, seed: ([{"seed": seed}] if tier == "quick" else
+                                [{"seed": seed * 1000 + i} for i in range(3)] + [{"seed": seed, "args": ["exhaustive"]}]),
+    "search": lambda tier, seed: [{"seed": seed * 7919 + i} for i in range(2)],
+    "rule": "Bases of 1..8 pairwise-coprime moduli of 2..60 bits (ascending/descending/mixed, not necessarily prime) for CRT and base conversion; NTT-friendly chains of 1..6 primes of mixed sizes with plain moduli 2^k / batching prime / 3 / odd for the BEHZ toolbox (whose auxiliary 61-bit primes come from the library itself); coefficients 0, 1, Q-1, Q/2, Q/2±1, multiples of q_last ± half, random; thorough adds every integer below the product for nine small bases.",
+    "exhaustive": {"thorough": True},
+    "explanation": "exhaustive=true (thorough) refers to `every integer below the product` for the listed small bases (decompose/compose); the rest is sampled.",
+    "assumptions": ["exact_convey_array / decrypt_mod_t round a sum of doubles: model and spec use exact rational rounding and make no claim when the fraction is within (k+1)*2^-46 of 1/2 (f64 cannot decide); such inputs are counted as outside the documented domain",
+                    "the auxiliary primes of RNSTool::new come from get_primes; the driver recomputes them with a deterministic Miller-Rabin"],
+}
